@@ -3,6 +3,7 @@ package app
 import (
 	"context"
 	"fmt"
+	"git.defalsify.org/vise.git/db"
 
 	"git.defalsify.org/vise.git/lang"
 	"git.defalsify.org/vise.git/resource"
@@ -46,6 +47,9 @@ type RecRes struct {
 	MaxEvents int
 	// Failures counts the lookups and calls that this resource answered with an error
 	Failures int
+	// Store, if set, is the store handle that also holds the session (the "all local data in one db.Db" deployment of
+	// examples/db): every external function keeps a note in it under the user-data type and leaves the handle that way
+	Store db.Db
 }
 
 const OpCapPanic = "harness-op-cap: the request made more callbacks than the cap (runaway execution)"
@@ -135,6 +139,10 @@ func (r *RecRes) FuncFor(ctx context.Context, sym string) (resource.EntryFunc, e
 			res = res[:24]
 		}
 		r.Events = append(r.Events, Event{Kind: "call", Sym: sym, Lang: l, Session: ctxSession(ctx), Input: string(input), Res: res})
+		if r.Store != nil {
+			r.Store.SetPrefix(db.DATATYPE_USERDATA)
+			r.Store.Put(ctx, []byte("note_"+sym), []byte(res))
+		}
 		if fr.Err {
 			r.Failures++
 			return resource.Result{Status: fr.Status}, fmt.Errorf("function %s failed on call %d", sym, n)
